@@ -204,6 +204,7 @@ class Grid(col.MutableSequence):
         '''
         if not isinstance(value, dict):
             raise TypeError('value must be a dict')
+        self._row[index]  # refuse a bad index before anything is changed
         for val in value.values():
             self._detect_or_validate(val)
         self._row[index] = value
